@@ -23,8 +23,8 @@ type gen struct{ rng *hx.Rng }
 
 // the last subjects hold a search word only behind a false start of itself ("aab" in "aaab", "mamma" in "mamamma", "0012" in
 // "00012", "abcabd" in "abcabcabd"): a matcher that does not fall back correctly after a partial match misses them
-var subjects = []string{"hello world", "Invoice 42", "Re: hello", "meeting notes", "", "xaaab mamamma", "ref 00012 abcabcabd"}
-var words = []string{"hello", "world", "invoice", "alice", "example.org", "zzz", "42", "notes", "body", "unique", "aab", "mamma", "0012", "abcabd"}
+var subjects = []string{"hello world", "Invoice 42", "Re: hello", "meeting notes", "", "xaaab mamamma", "ref 00012 abcabcabd", "2", "priority 1:2 *"}
+var words = []string{"hello", "world", "invoice", "alice", "example.org", "zzz", "42", "notes", "body", "unique", "aab", "mamma", "0012", "abcabd", "2"}
 var flagKeys = []string{"ALL", "ANSWERED", "DELETED", "DRAFT", "FLAGGED", "NEW", "OLD", "RECENT", "SEEN", "UNANSWERED", "UNDELETED", "UNDRAFT", "UNFLAGGED", "UNSEEN"}
 var dates = []string{"1-Jan-2006", "2-Jan-2006", "02-Jan-2006", "3-Jan-2006", "1-Feb-2030", "26-Sep-2026", "1-Jan-1999"}
 
